@@ -851,28 +851,9 @@ func hashIDUnique(c *core.Ctx, rule string, g *ssa.Function, x *ssa.MapUpdate, w
 	}
 }
 
-// evalPath: repository functions statically reachable from ParseNode (package transform), incl. closures.
-func evalPath(r *c13roles) []*ssa.Function {
-	seen := map[*ssa.Function]bool{}
-	var out []*ssa.Function
-	var walk func(f *ssa.Function)
-	walk = func(f *ssa.Function) {
-		if f == nil || seen[f] || f.Blocks == nil || core.FuncPkg(f) != r.tp {
-			return
-		}
-		seen[f] = true
-		out = append(out, f)
-		for _, a := range f.AnonFuncs {
-			walk(a)
-		}
-		for _, ci := range core.Calls(f) {
-			walk(ci.Common().StaticCallee())
-		}
-	}
-	walk(r.parseNode)
-	sort.Slice(out, func(i, j int) bool { return core.FuncKey(out[i]) < core.FuncKey(out[j]) })
-	return out
-}
+// evalPath: repository functions reachable from ParseNode (package transform) through static calls, closures and
+// functions referenced as values (a dispatch through a func value keeps its evaluators on the evaluation path).
+func evalPath(r *c13roles) []*ssa.Function { return g3EvalPath(r) }
 
 func c13InternalReads(c *core.Ctx, r *c13roles, rule string) {
 	isDeclT := func(n *types.Named) bool {
